@@ -212,7 +212,9 @@ func c01LiteralObjectSources() []string {
 // boundary of the UTF-8 encoding and of the surrogate range.
 func c01EscapeSources() []string {
 	cps := []int{0x00, 0x01, 0x1f, 0x20, 0x7e, 0x7f, 0x80, 0xff, 0x100, 0x7ff, 0x800, 0xfff, 0x1000, 0xd7ff, 0xe000, 0xfffd, 0xfffe, 0xffff,
-		0x10000, 0x10001, 0xffff0, 0x10ffff}
+		0x10000, 0x10001, 0xffff0, 0x10ffff,
+		// code points that must stay escaped (or be escaped again) in the re-quoted literal, in every escape form
+		0x0a, 0x0d, 0x22, 0x27, 0x5c, 0x60, 0x24, 0x30, 0x37, 0x39, 0x6e, 0x75, 0x78, 0x2028, 0x2029}
 	var out []string
 	var all []string
 	for _, cp := range cps {
@@ -226,6 +228,10 @@ func c01EscapeSources() []string {
 		forms = append(forms, fmt.Sprintf("\\u{%x}", cp), fmt.Sprintf("\\u{%06X}", cp))
 		for _, f := range forms {
 			all = append(all, "\"a"+f+"b\"")
+			if cp < 0x80 {
+				// after a backslash-denoting escape and after \0 the next character decides what the text means
+				all = append(all, "'a"+f+"b'", "\"\\0"+f+"\"", "\"\\x5c"+f+"\"", "\""+f+"n\"")
+			}
 		}
 	}
 	show := "function show(s) {\n  let r = []\n  for (let i = 0; i < s.length; i = i + 1) { r.push(s.charCodeAt(i)) }\n  console.log(r.join(\",\"))\n}\n"
